@@ -130,13 +130,63 @@ fn main() {
             let src: Vec<char> = text.chars().collect();
             // the windows `mod os` is the one following "#[cfg(windows)]\nmod os {"
             let start = find_from(&src, "#[cfg(windows)]\nmod os {", 0).unwrap_or(0);
-            for name in ["format_env_block", "assemble_cmdline", "append_quoted"] {
-                match extract_fn(&src, name, start) {
-                    Some(body) => {
-                        gen.push_str(&body);
-                        gen.push_str("\n\n");
+            // the windows `mod os { ... }` block: helper functions are looked up inside it only
+            let block_end = (start..src.len()).find(|&i| src[i] == '{').and_then(|o| skip_to_matching_brace(&src, o)).unwrap_or(src.len());
+            let block: Vec<char> = src[start..block_end].to_vec();
+            // names of all free functions defined in the block
+            let mut defined: Vec<String> = vec![];
+            {
+                let mut i = 0;
+                while let Some(at) = find_from(&block, "fn ", i) {
+                    let prev_ok = at == 0 || !(block[at - 1].is_alphanumeric() || block[at - 1] == '_');
+                    let mut j = at + 3;
+                    let mut name = String::new();
+                    while j < block.len() && (block[j].is_alphanumeric() || block[j] == '_') {
+                        name.push(block[j]);
+                        j += 1;
                     }
-                    None => ok = false,
+                    if prev_ok && !name.is_empty() && !defined.contains(&name) {
+                        defined.push(name);
+                    }
+                    i = at + 3;
+                }
+            }
+            // the three entry points plus, transitively, every helper function of the block that they call
+            let mut wanted: Vec<String> = vec!["format_env_block".into(), "assemble_cmdline".into(), "append_quoted".into()];
+            let mut done: Vec<String> = vec![];
+            while let Some(name) = wanted.pop() {
+                if done.contains(&name) {
+                    continue;
+                }
+                match extract_fn(&block, &name, 0) {
+                    Some(body) => {
+                        for d in &defined {
+                            if !done.contains(d) && !wanted.contains(d) && *d != name {
+                                let call = format!("{}(", d);
+                                let bc: Vec<char> = body.chars().collect();
+                                let mut from = 0;
+                                while let Some(p) = find_from(&bc, &call, from) {
+                                    let prev_ok = p == 0 || !(bc[p - 1].is_alphanumeric() || bc[p - 1] == '_' || bc[p - 1] == '.' || bc[p - 1] == ':');
+                                    if prev_ok {
+                                        wanted.push(d.clone());
+                                        break;
+                                    }
+                                    from = p + 1;
+                                }
+                            }
+                        }
+                        // nested helper fns (fn inside fn) are part of the body already: do not emit them twice
+                        if !gen.contains(&format!("fn {}(", name)) {
+                            gen.push_str(&body);
+                            gen.push_str("\n\n");
+                        }
+                        done.push(name);
+                    }
+                    None => {
+                        if ["format_env_block", "assemble_cmdline", "append_quoted"].contains(&name.as_str()) {
+                            ok = false;
+                        }
+                    }
                 }
             }
         }
